@@ -3192,8 +3192,10 @@ class RomanNumeral(Harmony):
 
     def find_bass_note(self):
         # TODO add support for diminished and augmented chords
-        step = re.search(r"[a-gA-G]", self.root).group(0)
-        alter = re.search(r"[#b]", self.root)
+        step_match = re.search(r"[a-gA-G]", self.root)
+        step = step_match.group(0)
+        # the alteration follows the step; root names spell flats as "-"
+        alter = re.search(r"[#b-]+", self.root[step_match.end() :])
         alter = ALT_TO_INT[alter.group(0)] if alter else 0
 
         if self.inversion == 1:
